@@ -472,6 +472,29 @@ def rule_cast(prog: Program, modules: Set[str]) -> List[Instance]:
             reason = next((v for q, v in CAST_TABLE.items() if fi.qual.startswith(q)), None)
             if _bounded(operand, fi):
                 out.append(Instance("R-CAST", cid, OK, f"`{short(operand, 60)}` is clamped before the fixed-width integer cast", fi.where(n)))
+                # the clamp happens before padding/alignment are applied: its bounds must leave
+                # room for every parameter that widens the interval afterwards
+                org = Origins(fi)
+                clampc = next((x for x in ast.walk(operand) if isinstance(x, ast.Call) and call_name(x) in ("clip", "clamp") and len(x.args) >= 3), None)
+                if clampc is not None:
+                    bound_deps = org.deps(clampc.args[1]) | org.deps(clampc.args[2])
+                    st = enclosing_stmt(n)
+                    later: Set[str] = set()
+                    params = set(fi.param_names())
+                    # parameters combined arithmetically with the cast result in this statement ...
+                    for x in ast.walk(st):
+                        if isinstance(x, ast.BinOp) and isinstance(x.op, (ast.Add, ast.Sub)) and (n in ast.walk(x.left) or n in ast.walk(x.right)):
+                            other = x.right if n in ast.walk(x.left) else x.left
+                            later |= names_in(other) & params
+                    # ... and in align_up/align_down calls on the variable it is bound to
+                    tgt = short(st.targets[0]) if isinstance(st, ast.Assign) else None
+                    for x in walk_own(fi.node):
+                        if isinstance(x, ast.Call) and call_name(x) in ("align_up", "align_down") and len(x.args) == 2 and tgt and short(x.args[0]) == tgt:
+                            later |= names_in(x.args[1]) & params
+                    miss = sorted(later - bound_deps)
+                    out.append(Instance("R-CAST", cid + "#margin", BAD if miss else OK,
+                                        f"clamp bounds `{short(clampc.args[1], 20)}`/`{short(clampc.args[2], 20)}` do not account for {miss}, which widen the interval after the clamp: a far-away envelope is pulled back into the image"
+                                        if miss else f"clamp margin accounts for every later widening parameter ({sorted(later)})", fi.where(n)))
             elif reason is not None:
                 out.append(Instance("R-CAST", cid, INFO, f"table: {reason}", fi.where(n), nontrivial=False))
             else:
